@@ -1,8 +1,1312 @@
-Require Import Pearl.Base.Prelude Pearl.Storage.Model Pearl.Storage.Spec Pearl.Storage.Theorems Pearl.Storage.Cancel.
+(* Cancellation safety (C14): what a dropped future of a public operation may leave behind (Cancel.v:
+   cancel_outcomes), and what holds of every such state.
+
+   Results (all for every outcome s' of every public operation o; s: BlobsOk K s, s_open s = true):
+     cancel_other_keys   (A) for every key k other than the key of o: same records in the log, same answer to every read
+     cancel_no_harm      (B) good s s': every blob keeps its id, its records are a prefix of its new records
+     cancel_later_ops    (C) ActiveInMemory, s_alive, IdsOk, s_open are kept; hence cancel_then_no_index_error,
+                             cancel_then_write_acknowledged; restore_retry_completes
+     cancel_safety / reach_cancel_safety   (A)+(B)+(C) under Inv K s /\ ActiveInMemory s, and for reach K cfg ops
+     cancelled_write_log, cancelled_write_session, unindexed_same_files, unindexed_regenerated   (D)
+     unindexed_then_dump_hides   finding F18 in general: a dump between the cancellation and the next start hides the record
+     cancelled_delete_log, cancelled_delete_read   (E): markers in a subset of the blobs the completed delete marks;
+                         every read of the key answers as before the delete or as after the completed delete
+
+   Hypotheses used, and why:
+     BlobsOk K s        the indexes are the indexes of the records (blob_ok), needed because a delete or a restore
+                        (cancelled or not) may have (re)loaded the index of a closed blob from its index file;
+     ActiveInMemory s   only as the premise of its own preservation (InvProofs.run_ActiveInMemory: it always holds);
+     s_open s = true    the operations are the ones of a running session.
+   All hold of every `reach K cfg ops` state with s_open = true (Theorems.reach_Inv, reach_ActiveInMemory).
+
+   Method: every outcome is `shape R s0 s'` for s0 = s or s0 = ensure_active s: slot by slot (closed list, active
+   blob) the blob of s' is R-related to the blob of s0; s_next grows by at most one; nothing else changes. For R
+   we take `stage_ok r` (same id; records: the old ones or the old ones ++ [r]; index: the old one or the old one
+   with r pushed; an index in memory stays in memory), refined to `dstage` for deletes and `quiet` for the
+   lifecycle operations. The completed write and delete are decomposed in the same way. *)
+Require Import Pearl.Base.Prelude Pearl.Storage.Model Pearl.Storage.Spec Pearl.Storage.Inv Pearl.Storage.IndexProofs
+               Pearl.Storage.ReadProofs Pearl.Storage.ReadAllProofs Pearl.Storage.InvProofs Pearl.Storage.NoHarmProofs
+               Pearl.Storage.WorkerProofs Pearl.Storage.Theorems Pearl.Storage.Cancel.
+
+(* ================= 1. a read of key k looks at the entry of k in each index, nothing else ================= *)
+
+Lemma blob_get_latest_ext m m' k meta :
+  imap_get m' k = imap_get m k -> blob_get_latest m' k meta = blob_get_latest m k meta.
+Proof.
+  intros H. destruct meta as [mt|]; cbn [blob_get_latest].
+  - unfold blob_get_with_meta, idx_get_all_dm. rewrite H. reflexivity.
+  - unfold idx_get_latest. rewrite H. reflexivity.
+Qed.
+
+Lemma blob_get_latest_nil k meta : blob_get_latest [] k meta = NotFound.
+Proof. destruct meta; reflexivity. Qed.
+
+Lemma gle_as_fold s k meta :
+  get_latest_entry s k meta =
+  fold_left (rr_latest r_ts) (rev (map (fun b => blob_get_latest (b_idx b) k meta) (blobs_in_order s))) NotFound.
+Proof. rewrite get_latest_entry_newest_first, newest_first_rev, fold_left_map_rr, map_rev. reflexivity. Qed.
+
+Lemma abs_of_key_bio s k : of_key k (abs s) = of_key k (flat_map b_recs (blobs_in_order s)).
+Proof. reflexivity. Qed.
+
+(* the index of b' has for key k the entry the index of b has *)
+Definition isame (k : N) (b b' : blob) : Prop := imap_get (b_idx b') k = imap_get (b_idx b) k.
+
+(* blob b' is to key k what blob b is *)
+Definition bsame (k : N) (b b' : blob) : Prop := of_key k (b_recs b') = of_key k (b_recs b) /\ isame k b b'.
+
+Lemma bsame_refl k b : bsame k b b.
+Proof. split; reflexivity. Qed.
+
+(* every read of key k is answered as before *)
+Definition rsame (k : N) (s s' : storage) : Prop :=
+  forall meta, get_latest_entry s' k meta = get_latest_entry s k meta.
+
+(* key k is unaffected: same records in the log, same answer to every read *)
+Definition keeps (k : N) (s s' : storage) : Prop := of_key k (abs s') = of_key k (abs s) /\ rsame k s s'.
+
+Lemma rsame_refl k s : rsame k s s.
+Proof. intros meta. reflexivity. Qed.
+
+Lemma rsame_trans k s1 s2 s3 : rsame k s1 s2 -> rsame k s2 s3 -> rsame k s1 s3.
+Proof. intros B1 B2 meta. rewrite B2. apply B1. Qed.
+
+Lemma keeps_refl k s : keeps k s s.
+Proof. split; [reflexivity|apply rsame_refl]. Qed.
+
+Lemma keeps_trans k s1 s2 s3 : keeps k s1 s2 -> keeps k s2 s3 -> keeps k s1 s3.
+Proof.
+  intros [A1 B1] [A2 B2]. split; [rewrite A2; exact A1|]. apply (rsame_trans _ _ _ _ B1 B2).
+Qed.
+
+Lemma F2_impl {A B} (R R' : A -> B -> Prop) l l' :
+  (forall a b, R a b -> R' a b) -> Forall2 R l l' -> Forall2 R' l l'.
+Proof. intros HI. induction 1 as [|a b l l' Hab HF IH]; constructor; [apply HI, Hab|exact IH]. Qed.
+
+Lemma F2_of_key k l l' :
+  Forall2 (bsame k) l l' -> of_key k (flat_map b_recs l') = of_key k (flat_map b_recs l).
+Proof.
+  induction 1 as [|b b' l l' Hb HF IH]; [reflexivity|].
+  cbn [flat_map]. rewrite !of_key_app, IH, (proj1 Hb). reflexivity.
+Qed.
+
+Lemma F2_reads k meta l l' :
+  Forall2 (isame k) l l' ->
+  map (fun b => blob_get_latest (b_idx b) k meta) l' = map (fun b => blob_get_latest (b_idx b) k meta) l.
+Proof.
+  induction 1 as [|b b' l l' Hb HF IH]; [reflexivity|].
+  cbn [map]. rewrite IH, (blob_get_latest_ext (b_idx b) (b_idx b') k meta Hb). reflexivity.
+Qed.
+
+Lemma rsame_F2 k s s' : Forall2 (isame k) (blobs_in_order s) (blobs_in_order s') -> rsame k s s'.
+Proof. intros HF meta. rewrite !gle_as_fold, (F2_reads k meta _ _ HF). reflexivity. Qed.
+
+Lemma keeps_F2 k s s' : Forall2 (bsame k) (blobs_in_order s) (blobs_in_order s') -> keeps k s s'.
+Proof.
+  intros HF. split.
+  - rewrite !abs_of_key_bio. apply F2_of_key, HF.
+  - apply rsame_F2. apply (F2_impl (bsame k) (isame k)) with (2 := HF). intros b b' H. apply H.
+Qed.
+
+Lemma F2_bsame_refl k l : Forall2 (bsame k) l l.
+Proof. induction l as [|x l IH]; constructor; [apply bsame_refl|exact IH]. Qed.
+
+Lemma keeps_bio k s s' : blobs_in_order s' = blobs_in_order s -> keeps k s s'.
+Proof.
+  intros H. apply keeps_F2. rewrite H. apply F2_bsame_refl.
+Qed.
+
+Lemma keeps_ext k s s' : s_closed s' = s_closed s -> s_active s' = s_active s -> keeps k s s'.
+Proof. intros Hc Ha. apply keeps_bio. rewrite !bio_eq, Hc, Ha. reflexivity. Qed.
+
+(* a fresh, empty blob at the end *)
+Lemma keeps_grow k s s' nb :
+  blobs_in_order s' = blobs_in_order s ++ [nb] -> b_recs nb = [] -> b_idx nb = [] -> keeps k s s'.
+Proof.
+  intros H Hr Hi. split.
+  - rewrite !abs_of_key_bio, H, flat_map_app. cbn [flat_map]. rewrite Hr, !app_nil_r. reflexivity.
+  - intros meta. rewrite !gle_as_fold, H, map_app, rev_app_distr. cbn [map rev app fold_left].
+    rewrite Hi, blob_get_latest_nil, rr_latest_NotFound_l. reflexivity.
+Qed.
+
+Lemma keeps_ensure_active k s : keeps k s (ensure_active s).
+Proof.
+  unfold ensure_active. destruct (s_active s) as [a|] eqn:E; [apply keeps_refl|].
+  apply (keeps_grow k _ _ (new_blob (s_next s))); [|reflexivity|reflexivity].
+  rewrite !bio_eq, E. cbn [s_closed s_active oa]. rewrite app_nil_r. reflexivity.
+Qed.
+
+Lemma keeps_request_dump k s : keeps k s (request_dump s).
+Proof. unfold request_dump. destruct (s_alive s); [apply keeps_ext; reflexivity|apply keeps_refl]. Qed.
+
+Lemma keeps_replace_active k s : keeps k s (replace_active s).
+Proof.
+  apply (keeps_grow k _ _ (new_blob (s_next s))); [|reflexivity|reflexivity].
+  unfold replace_active. rewrite !bio_eq. cbn [s_closed s_active oa].
+  destruct (s_active s) as [a|]; cbn [push_closed upd_closed s_closed oa].
+  - rewrite cb_app. reflexivity.
+  - rewrite app_nil_r. reflexivity.
+Qed.
+
+(* ================= 2. ReadResult::latest as an operation: what markers merged into a list of answers can do ================= *)
+
+(* ---------- ReadResult::latest is "leftmost maximum" ---------- *)
+Definition lv (a : rr rec) : N := match rr_ts r_ts a with Some t => t + 1 | None => 0 end.
+
+Lemma latest_cases (a b : rr rec) :
+  (lv a < lv b /\ rr_latest r_ts a b = b) \/ (lv b <= lv a /\ rr_latest r_ts a b = a).
+Proof.
+  unfold rr_latest, lv. destruct (rr_ts r_ts a) as [ta|], (rr_ts r_ts b) as [tb|]; cbn [opt_gt].
+  - destruct (N.ltb_spec ta tb); [left|right]; split; try reflexivity; lia.
+  - right. split; [lia|reflexivity].
+  - left. split; [lia|reflexivity].
+  - right. split; [lia|reflexivity].
+Qed.
+
+Ltac lat_step :=
+  match goal with
+  | |- context [rr_latest r_ts ?a ?b] =>
+    lazymatch a with context [rr_latest] => fail | _ => idtac end;
+    lazymatch b with context [rr_latest] => fail | _ => idtac end;
+    let H := fresh "H" in let E := fresh "E" in
+    destruct (latest_cases a b) as [[H E]|[H E]]; rewrite !E
+  end.
+Ltac lat := repeat lat_step; first [reflexivity | left; reflexivity | right; reflexivity | exfalso; lia].
+
+Section Tri.
+Variable D : rr rec.
+
+Lemma lat_L1 (X x : rr rec) :
+  rr_latest r_ts X (rr_latest r_ts D x) = rr_latest r_ts X x \/
+  rr_latest r_ts X (rr_latest r_ts D x) = rr_latest r_ts D (rr_latest r_ts X x).
+Proof. lat. Qed.
+
+Lemma lat_L2 (X x : rr rec) :
+  rr_latest r_ts (rr_latest r_ts D X) (rr_latest r_ts D x) = rr_latest r_ts D (rr_latest r_ts X x).
+Proof. lat. Qed.
+
+(* x: the answer of a blob before the delete; y: in the state left by the dropped delete; z: after the completed one *)
+Inductive tri : rr rec -> rr rec -> rr rec -> Prop :=
+| tri_none x : tri x x x                                               (* the delete does not touch the blob *)
+| tri_later x : tri x x (rr_latest r_ts D x)                           (* not yet indexed *)
+| tri_done x : tri x (rr_latest r_ts D x) (rr_latest r_ts D x).        (* indexed *)
+
+Inductive Tri : list (rr rec) -> list (rr rec) -> list (rr rec) -> Prop :=
+| Tri_nil : Tri [] [] []
+| Tri_cons x y z xs ys zs : tri x y z -> Tri xs ys zs -> Tri (x :: xs) (y :: ys) (z :: zs).
+
+Lemma Tri_app xs1 ys1 zs1 xs2 ys2 zs2 :
+  Tri xs1 ys1 zs1 -> Tri xs2 ys2 zs2 -> Tri (xs1 ++ xs2) (ys1 ++ ys2) (zs1 ++ zs2).
+Proof. induction 1 as [|x y z xs ys zs Ht HT IH]; intros H2; [exact H2|]. cbn [app]. constructor; [exact Ht|apply IH, H2]. Qed.
+
+(* the storage's answer, from the answers of the blobs in creation order *)
+Definition merged (l : list (rr rec)) : rr rec := fold_left (rr_latest r_ts) (rev l) NotFound.
+
+Lemma merged_cons x l : merged (x :: l) = rr_latest r_ts (merged l) x.
+Proof. unfold merged. cbn [rev]. rewrite fold_left_app. reflexivity. Qed.
+
+Lemma Tri_merged xs ys zs :
+  Tri xs ys zs ->
+  (merged ys = merged xs \/ merged ys = merged zs) /\
+  (merged zs = merged xs \/ merged zs = rr_latest r_ts D (merged xs)).
+Proof.
+  induction 1 as [|x y z xs ys zs Ht HT [IHy IHz]]; [split; left; reflexivity|].
+  rewrite !merged_cons. set (X := merged xs) in *. set (Y := merged ys) in *. set (Z := merged zs) in *.
+  clearbody X Y Z. split.
+  - destruct Ht as [x|x|x].
+    + destruct IHy as [-> | ->]; [left|right]; reflexivity.
+    + destruct IHy as [-> | ->]; [left; reflexivity|].
+      destruct IHz as [-> | ->]; [left; reflexivity|]. right.
+      rewrite lat_L2. symmetry. apply rr_latest_assoc.
+    + destruct IHy as [-> | ->]; [|right; reflexivity].
+      destruct IHz as [-> | ->]; [right; reflexivity|]. rewrite lat_L2. apply lat_L1.
+  - destruct Ht as [x|x|x].
+    + destruct IHz as [-> | ->]; [left; reflexivity|right]. symmetry. apply rr_latest_assoc.
+    + destruct IHz as [-> | ->]; [apply lat_L1|right; apply lat_L2].
+    + destruct IHz as [-> | ->]; [apply lat_L1|right; apply lat_L2].
+Qed.
+
+End Tri.
+
+(* ---------- one blob: pushing a marker into its index ---------- *)
+Definition vec_at (m : imap) (k : N) : list rec := match imap_get m k with Some v => v | None => [] end.
+
+Lemma bgl_vec m k meta :
+  blob_get_latest m k meta =
+  match meta with Some mt => scan mt (rev (vec_at m k)) | None => to_rr (last_opt (vec_at m k)) end.
+Proof.
+  destruct meta as [mt|]; cbn [blob_get_latest].
+  - change (blob_get_with_meta m k mt) with (res mt (idx_get_all_dm m k)).
+    replace (idx_get_all_dm m k) with (cut_after_del (rev (vec_at m k))); [apply res_cut|].
+    unfold idx_get_all_dm, vec_at. destruct (imap_get m k); reflexivity.
+  - unfold idx_get_latest, vec_at, last_opt, to_rr. destruct (imap_get m k) as [v|]; [|reflexivity].
+    destruct (rev v); reflexivity.
+Qed.
+
+Lemma push_vec_at m mk : vec_at (imap_push m mk) (r_key mk) = vec_insert (vec_at m (r_key mk)) mk.
+Proof. unfold vec_at. rewrite imap_get_push, N.eqb_refl. destruct (imap_get m (r_key mk)); reflexivity. Qed.
+
+Lemma vec_at_index_of rs k : vec_at (index_of rs) k = vec_of (of_key k rs).
+Proof. unfold vec_at. rewrite imap_get_index_of. destruct (of_key k rs); reflexivity. Qed.
+
+(* the answer of the blob with the marker indexed = the marker merged, as the OLDER of the two at equal
+   timestamps, with the answer of the blob without it *)
+Lemma bgl_push b mk meta :
+  idx_ok b -> r_del mk = true ->
+  blob_get_latest (imap_push (b_idx b) mk) (r_key mk) meta =
+  rr_latest r_ts (Deleted (r_ts mk)) (blob_get_latest (b_idx b) (r_key mk) meta).
+Proof.
+  intros Hi Hd. unfold idx_ok in Hi. rewrite !bgl_vec, push_vec_at.
+  assert (Hs : sorted_ts (vec_at (b_idx b) (r_key mk))) by (rewrite Hi, vec_at_index_of; apply vec_of_sorted).
+  assert (Hr : sdesc (rev (vec_at (b_idx b) (r_key mk)))).
+  { rewrite Hi, vec_at_index_of, rev_vec_of. apply sort_desc_sdesc. }
+  set (v := vec_at (b_idx b) (r_key mk)) in *. clearbody v.
+  destruct meta as [mt|].
+  - rewrite rev_vec_insert by exact Hs. rewrite scan_ins by exact Hr. cbn [scan]. rewrite Hd. reflexivity.
+  - rewrite last_vec_insert by exact Hs. rewrite pick_combine.
+    assert (E : to_rr (Some mk) = Deleted (r_ts mk)) by (cbn [to_rr]; rewrite Hd; reflexivity).
+    rewrite <- E, rr_latest_to_rr. reflexivity.
+Qed.
+
+(* ================= 3. states related slot by slot ================= *)
+
+Inductive orel (R : blob -> blob -> Prop) : option blob -> option blob -> Prop :=
+| orel_none : orel R None None
+| orel_some b b' : R b b' -> orel R (Some b) (Some b').
+
+Lemma orel_refl (R : blob -> blob -> Prop) o : (forall b, R b b) -> orel R o o.
+Proof. intros H. destruct o; constructor. apply H. Qed.
+
+Lemma F2_orel_refl (R : blob -> blob -> Prop) l : (forall b, R b b) -> Forall2 (orel R) l l.
+Proof. intros H. induction l as [|x l IH]; constructor; [apply orel_refl, H|exact IH]. Qed.
+
+Record shape (R : blob -> blob -> Prop) (s s' : storage) : Prop := mk_shape {
+  sh_closed : Forall2 (orel R) (s_closed s) (s_closed s');
+  sh_active : orel R (s_active s) (s_active s');
+  sh_next : s_next s' = s_next s \/ s_next s' = s_next s + 1;
+  sh_alive : s_alive s' = s_alive s;
+  sh_open : s_open s' = s_open s
+}.
+
+Lemma cb_F2 (R : blob -> blob -> Prop) l l' : Forall2 (orel R) l l' -> Forall2 R (cb l) (cb l').
+Proof.
+  induction 1 as [|o o' l l' Ho HF IH]; [constructor|].
+  destruct Ho as [|b b' Hb]; [rewrite !cb_cons_none; exact IH|].
+  rewrite !cb_cons_some. constructor; [exact Hb|exact IH].
+Qed.
+
+Lemma shape_bio (R : blob -> blob -> Prop) s s' : shape R s s' -> Forall2 R (blobs_in_order s) (blobs_in_order s').
+Proof.
+  intros H. rewrite !bio_eq. apply Forall2_app; [apply cb_F2, (sh_closed _ _ _ H)|].
+  destruct (sh_active _ _ _ H) as [|b b' Hb]; cbn [oa]; [constructor|]. constructor; [exact Hb|constructor].
+Qed.
+
+Lemma shape_impl (R R' : blob -> blob -> Prop) s s' :
+  (forall b b', R b b' -> R' b b') -> shape R s s' -> shape R' s s'.
+Proof.
+  intros HI [Hc Ha Hn Hl Ho]. constructor; try assumption.
+  - apply (F2_impl (orel R) (orel R')) with (2 := Hc). intros o o' [|b b' Hb]; constructor. apply HI, Hb.
+  - destruct Ha as [|b b' Hb]; constructor. apply HI, Hb.
+Qed.
+
+Lemma shape_keeps (R : blob -> blob -> Prop) k s s' : (forall b b', R b b' -> bsame k b b') -> shape R s s' -> keeps k s s'.
+Proof.
+  intros HI H. apply keeps_F2. apply (F2_impl R (bsame k)) with (2 := shape_bio _ _ _ H). exact HI.
+Qed.
+
+Lemma shape_good (R : blob -> blob -> Prop) s s' : (forall b b', R b b' -> bext b b') -> shape R s s' -> good s s'.
+Proof.
+  intros HI H.
+  assert (HF : Forall2 bext (blobs_in_order s) (blobs_in_order s')).
+  { apply (F2_impl R bext) with (2 := shape_bio _ _ _ H). exact HI. }
+  split; [apply F2_lext, HF|]. split; [destruct (sh_next _ _ _ H) as [E|E]; rewrite E; lia|].
+  intros b' Hb'. left. apply (F2_ids _ _ HF b' Hb').
+Qed.
+
+Lemma shape_aim (R : blob -> blob -> Prop) s s' :
+  (forall b b', R b b' -> b_ondisk b = false -> b_ondisk b' = false) ->
+  shape R s s' -> ActiveInMemory s -> ActiveInMemory s'.
+Proof.
+  intros HI H HA b' Hb'. pose proof (sh_active _ _ _ H) as Ha. rewrite Hb' in Ha.
+  inversion Ha as [|b b0 Hb Eb E0]. subst b0. apply (HI b b' Hb). apply HA. symmetry. exact Eb.
+Qed.
+
+Lemma F2_ids_eq (R : blob -> blob -> Prop) l l' :
+  (forall b b', R b b' -> b_id b' = b_id b) -> Forall2 R l l' -> map b_id l' = map b_id l.
+Proof.
+  intros HI. induction 1 as [|b b' l l' Hb HF IH]; [reflexivity|]. cbn [map]. rewrite IH, (HI b b' Hb). reflexivity.
+Qed.
+
+Lemma shape_ids (R : blob -> blob -> Prop) s s' : (forall b b', R b b' -> b_id b' = b_id b) -> shape R s s' -> IdsOk s -> IdsOk s'.
+Proof.
+  intros HI H [Hinc Hlt].
+  pose proof (F2_ids_eq R _ _ HI (shape_bio _ _ _ H)) as E.
+  split; [rewrite E; exact Hinc|].
+  intros Ho b' Hb'. rewrite (sh_open _ _ _ H) in Ho.
+  assert (Hin : In (b_id b') (map b_id (blobs_in_order s))) by (rewrite <- E; apply in_map, Hb').
+  apply in_map_iff in Hin. destruct Hin as (b & Eb & Hb). specialize (Hlt Ho b Hb).
+  destruct (sh_next _ _ _ H) as [En|En]; rewrite En; lia.
+Qed.
+
+(* ---------- building shapes ---------- *)
+Lemma shape_upd_active (R : blob -> blob -> Prop) s b b' :
+  (forall x, R x x) -> s_active s = Some b -> R b b' -> shape R s (upd_active s (Some b')).
+Proof.
+  intros Hr E Hb. constructor; cbn [upd_active s_closed s_active s_next s_alive s_open]; auto.
+  - apply F2_orel_refl, Hr.
+  - rewrite E. constructor. exact Hb.
+Qed.
+
+Lemma shape_burn_id (R : blob -> blob -> Prop) s : (forall x, R x x) -> shape R s (burn_id s).
+Proof.
+  intros Hr. constructor; cbn [burn_id s_closed s_active s_next s_alive s_open]; auto.
+  - apply F2_orel_refl, Hr.
+  - apply orel_refl, Hr.
+Qed.
+
+Lemma shape_refl (R : blob -> blob -> Prop) s : (forall x, R x x) -> shape R s s.
+Proof. intros Hr. constructor; auto; [apply F2_orel_refl, Hr|apply orel_refl, Hr]. Qed.
+
+Section K.
+Variable K : N.
+Variable cfg : config.
+
+(* ================= 4. one blob ================= *)
+
+(* what any stage of an append of r (write: r = the record; delete: r = the marker) makes of a blob *)
+Definition stage_ok (r : rec) (b b' : blob) : Prop :=
+  b_id b' = b_id b /\
+  (b_recs b' = b_recs b \/ b_recs b' = b_recs b ++ [r]) /\
+  (b_idx b' = b_idx b \/ b_idx b' = imap_push (b_idx b) r) /\
+  (b_ondisk b = false -> b_ondisk b' = false).
+
+Lemma stage_ok_refl r b : stage_ok r b b.
+Proof. repeat split; auto. Qed.
+
+Lemma stage_ok_id r b b' : stage_ok r b b' -> b_id b' = b_id b.
+Proof. intros H. apply H. Qed.
+
+Lemma stage_ok_mem r b b' : stage_ok r b b' -> b_ondisk b = false -> b_ondisk b' = false.
+Proof. intros H. apply H. Qed.
+
+Lemma stage_ok_bext r b b' : stage_ok r b b' -> bext b b'.
+Proof.
+  intros (Hi & [Hr|Hr] & _). 
+  - apply bext_same; assumption.
+  - split; [exact Hi|]. exists [r]. exact Hr.
+Qed.
+
+Lemma of_key_other r k : r_key r <> k -> of_key k [r] = [].
+Proof. intros H. cbn [of_key filter]. destruct (N.eqb_spec (r_key r) k); [contradiction|reflexivity]. Qed.
+
+Lemma stage_ok_bsame r k b b' : r_key r <> k -> stage_ok r b b' -> bsame k b b'.
+Proof.
+  intros Hk (_ & Hr & Hx & _). split.
+  - destruct Hr as [->| ->]; [reflexivity|]. rewrite of_key_app, of_key_other by exact Hk. apply app_nil_r.
+  - unfold isame. destruct Hx as [->| ->]; [reflexivity|]. rewrite imap_get_push.
+    destruct (N.eqb_spec (r_key r) k); [contradiction|reflexivity].
+Qed.
+
+(* loading the index of a blob whose index file is trusted only when it describes the whole blob *)
+Lemma load_index_idx b : blob_ok K b -> b_idx (blob_load_index K b) = b_idx b.
+Proof.
+  intros [Hi Hf]. unfold blob_load_index. destruct (b_ondisk b); [|reflexivity]. cbn [b_idx].
+  destruct (b_idxfile b) as [[sz m]|] eqn:E; [|symmetry; exact Hi].
+  destruct (N.eqb_spec sz (blob_size K b)) as [Hs|_]; [|symmetry; exact Hi].
+  rewrite (idxfile_full K b sz m Hf E Hs). symmetry. exact Hi.
+Qed.
+
+Lemma load_index_ok r b : blob_ok K b -> stage_ok r b (blob_load_index K b).
+Proof.
+  intros Hb. split; [apply blob_load_index_id|]. split; [left; apply blob_load_index_recs|].
+  split; [left; apply load_index_idx, Hb|]. intros _. apply blob_load_index_mem.
+Qed.
+
+Lemma unindexed_ok r b : stage_ok r b (append_unindexed b r).
+Proof. repeat split; cbn [append_unindexed b_id b_recs b_idx b_ondisk]; auto. Qed.
+
+Lemma append_ok r b : stage_ok r b (fst (blob_append b r)).
+Proof.
+  unfold stage_ok, blob_append. destruct (b_ondisk b) eqn:E; cbn [fst b_id b_recs b_idx b_ondisk].
+  - split; [reflexivity|]. split; [right; reflexivity|]. split; [left; reflexivity|]. intros H. discriminate H.
+  - split; [reflexivity|]. split; [right; reflexivity|]. split; [right; reflexivity|]. intros _. reflexivity.
+Qed.
+
+(* a stage of an append to the loaded blob is a stage of an append to the blob *)
+Lemma stage_after_load r b b' : blob_ok K b -> stage_ok r (blob_load_index K b) b' -> stage_ok r b b'.
+Proof.
+  intros Hb (Hi & Hr & Hx & Hm).
+  rewrite blob_load_index_id in Hi. rewrite blob_load_index_recs in Hr. rewrite (load_index_idx b Hb) in Hx.
+  split; [exact Hi|]. split; [exact Hr|]. split; [exact Hx|]. intros _. apply Hm, blob_load_index_mem.
+Qed.
+
+Lemma delete_stage_ok mk b b' : blob_ok K b -> delete_stage K mk b b' -> stage_ok mk b b'.
+Proof.
+  intros Hb [ | | | ].
+  - apply stage_ok_refl.
+  - apply load_index_ok, Hb.
+  - apply stage_after_load; [exact Hb|apply unindexed_ok].
+  - apply stage_after_load; [exact Hb|apply append_ok].
+Qed.
+
+Lemma blob_delete_eq b mk oip :
+  blob_delete K b mk oip =
+  if delete_applies b mk oip
+  then (fst (blob_append (blob_load_index K b) mk), true, snd (blob_append (blob_load_index K b) mk))
+  else (b, false, true).
+Proof.
+  unfold blob_delete, delete_applies, is_found.
+  destruct (negb oip || match idx_get_latest (b_idx b) (r_key mk) with Found _ => true | _ => false end); [|reflexivity].
+  destruct (blob_append (blob_load_index K b) mk); reflexivity.
+Qed.
+
+(* the completed Blob::delete is the last stage (or nothing, when the blob does not hold the key) *)
+Lemma blob_delete_stage b mk oip :
+  fst (fst (blob_delete K b mk oip)) = if delete_applies b mk oip then fst (blob_append (blob_load_index K b) mk) else b.
+Proof. rewrite blob_delete_eq. destruct (delete_applies b mk oip); reflexivity. Qed.
+
+Lemma blob_delete_ok b mk oip : blob_ok K b -> stage_ok mk b (fst (fst (blob_delete K b mk oip))).
+Proof.
+  intros Hb. rewrite blob_delete_stage. destruct (delete_applies b mk oip); [|apply stage_ok_refl].
+  apply delete_stage_ok; [exact Hb|apply ds_done].
+Qed.
+
+(* a stage of Blob::delete, remembering that a marker is written only where Blob::delete applies *)
+Definition dstage (mk : rec) (oip : bool) (b b' : blob) : Prop :=
+  stage_ok mk b b' /\ (delete_applies b mk oip = true \/ (b_recs b' = b_recs b /\ b_idx b' = b_idx b)).
+
+Lemma dstage_refl mk oip b : dstage mk oip b b.
+Proof. split; [apply stage_ok_refl|right; split; reflexivity]. Qed.
+
+Lemma dstage_ok mk oip b b' : dstage mk oip b b' -> stage_ok mk b b'.
+Proof. intros H. apply H. Qed.
+
+Lemma delete_stage_d mk oip b b' :
+  blob_ok K b -> delete_applies b mk oip = true -> delete_stage K mk b b' -> dstage mk oip b b'.
+Proof. intros Hb Ha Hs. split; [apply delete_stage_ok; assumption|left; exact Ha]. Qed.
+
+Lemma blob_delete_d b mk oip : blob_ok K b -> dstage mk oip b (fst (fst (blob_delete K b mk oip))).
+Proof.
+  intros Hb. rewrite blob_delete_stage. destruct (delete_applies b mk oip) eqn:A; [|apply dstage_refl].
+  apply delete_stage_d; [exact Hb|exact A|apply ds_done].
+Qed.
+
+Lemma slot_stage_d mk o o' :
+  (forall b, o = Some b -> blob_ok K b) -> slot_stage K mk o o' -> orel (dstage mk true) o o'.
+Proof.
+  intros Hb H. revert Hb. destruct H as [|b Hn|b b' Ha Hs]; intros Hb; constructor.
+  - apply dstage_refl.
+  - apply delete_stage_d; [apply Hb; reflexivity|exact Ha|exact Hs].
+Qed.
+
+Lemma slots_stage_d mk l l' :
+  (forall b, In (Some b) l -> blob_ok K b) -> Forall2 (slot_stage K mk) l l' -> Forall2 (orel (dstage mk true)) l l'.
+Proof.
+  intros Hb HF. induction HF as [|o o' l l' Ho HF IH]; constructor.
+  - apply slot_stage_d; [|exact Ho]. intros b ->. apply Hb. left. reflexivity.
+  - apply IH. intros b Hin. apply Hb. right. exact Hin.
+Qed.
+
+(* a state of a delete: closed slots at a stage of Blob::delete(only_if_presented = true), the active blob at a
+   stage of Blob::delete(only_if_presented = oip) *)
+Record dshape (mk : rec) (oip : bool) (s s' : storage) : Prop := mk_dshape {
+  dsh_closed : Forall2 (orel (dstage mk true)) (s_closed s) (s_closed s');
+  dsh_active : orel (dstage mk oip) (s_active s) (s_active s');
+  dsh_next : s_next s' = s_next s \/ s_next s' = s_next s + 1;
+  dsh_alive : s_alive s' = s_alive s;
+  dsh_open : s_open s' = s_open s
+}.
+
+Lemma dshape_shape mk oip s s' : dshape mk oip s s' -> shape (stage_ok mk) s s'.
+Proof.
+  intros [Hc Ha Hn Hl Ho]. constructor; try assumption.
+  - apply (F2_impl (orel (dstage mk true)) (orel (stage_ok mk))) with (2 := Hc).
+    intros o o' [|b b' Hb]; constructor. apply (dstage_ok _ _ _ _ Hb).
+  - destruct Ha as [|b b' Hb]; constructor. apply (dstage_ok _ _ _ _ Hb).
+Qed.
+
+Lemma dshape_refl mk oip s : dshape mk oip s s.
+Proof.
+  constructor; auto; [apply F2_orel_refl; intros b; apply dstage_refl|apply orel_refl; intros b; apply dstage_refl].
+Qed.
+
+(* the completed loop over the closed blobs is the instance "every slot fully processed" *)
+Lemma delete_in_closed_slots l mk : forall l' n f,
+  delete_in_closed K l mk = (l', n, f) -> Forall2 (slot_stage K mk) l l'.
+Proof.
+  induction l as [|[x|] l IH]; intros l' n f E; cbn [delete_in_closed] in E.
+  - injection E as <- <- <-. constructor.
+  - destruct (delete_in_closed K l mk) as [[r' n1] f1] eqn:D.
+    pose proof (blob_delete_stage x mk true) as HS.
+    destruct (blob_delete K x mk true) as [[b' d] ok] eqn:B. cbn [fst] in HS.
+    injection E as <- <- <-. constructor; [|apply (IH _ _ _ eq_refl)].
+    destruct (delete_applies x mk true) eqn:A; subst b'.
+    + apply ss_stage; [exact A|apply ds_done].
+    + apply ss_skip, A.
+  - destruct (delete_in_closed K l mk) as [[r' n1] f1] eqn:D.
+    injection E as <- <- <-. constructor; [constructor|apply (IH _ _ _ eq_refl)].
+Qed.
+
+(* ================= 5. what "safe" means, and how it composes ================= *)
+
+(* P : the keys that must not be affected *)
+Definition safe (P : N -> Prop) (s s' : storage) : Prop :=
+  (forall k, P k -> keeps k s s') /\ good s s' /\ (ActiveInMemory s -> ActiveInMemory s') /\
+  s_alive s' = s_alive s /\ (IdsOk s -> IdsOk s') /\ s_open s' = s_open s.
+
+Lemma safe_refl P s : safe P s s.
+Proof.
+  split; [intros k _; apply keeps_refl|]. split; [apply good_refl|].
+  split; [auto|]. split; [reflexivity|]. split; [auto|reflexivity].
+Qed.
+
+Lemma safe_trans P s1 s2 s3 : safe P s1 s2 -> safe P s2 s3 -> safe P s1 s3.
+Proof.
+  intros (A1 & B1 & C1 & D1 & E1 & F1) (A2 & B2 & C2 & D2 & E2 & F2).
+  split; [intros k Hk; apply (keeps_trans _ _ _ _ (A1 k Hk) (A2 k Hk))|].
+  split; [apply (good_trans _ _ _ B1 B2)|]. split; [auto|]. split; [congruence|]. split; [auto|congruence].
+Qed.
+
+Lemma safe_shape r s s' : shape (stage_ok r) s s' -> safe (fun k => r_key r <> k) s s'.
+Proof.
+  intros H. split.
+  { intros k Hk. apply (shape_keeps (stage_ok r)); [|exact H]. intros b b'. apply stage_ok_bsame, Hk. }
+  split; [apply (shape_good (stage_ok r)); [apply stage_ok_bext|exact H]|].
+  split; [apply (shape_aim (stage_ok r)); [apply stage_ok_mem|exact H]|].
+  split; [apply (sh_alive _ _ _ H)|].
+  split; [apply (shape_ids (stage_ok r)); [apply stage_ok_id|exact H]|apply (sh_open _ _ _ H)].
+Qed.
+
+Lemma safe_ensure_active P s : s_open s = true -> safe P s (ensure_active s).
+Proof.
+  intros Ho. split; [intros k _; apply keeps_ensure_active|]. split; [apply good_ensure_active|].
+  split; [apply aim_ensure_active|]. split; [apply alive_ensure_active|].
+  split; [|apply open_ensure_active].
+  intros H. apply IdsOkS_IdsOk, IdsOkS_ensure_active, IdsOk_IdsOkS; assumption.
+Qed.
+
+(* ================= 6. the completed operations do not affect other keys ================= *)
+
+Definition same_blobs (s s' : storage) : Prop :=
+  s_closed s' = s_closed s /\ s_active s' = s_active s /\ s_next s' = s_next s /\
+  s_alive s' = s_alive s /\ s_open s' = s_open s.
+
+Lemma shape_same (R : blob -> blob -> Prop) s s1 s2 : shape R s s1 -> same_blobs s1 s2 -> shape R s s2.
+Proof.
+  intros [Hc Ha Hn Hl Ho] (E1 & E2 & E3 & E4 & E5). constructor; rewrite ?E1, ?E2, ?E3, ?E4, ?E5; assumption.
+Qed.
+
+Lemma dshape_same mk oip s s1 s2 : dshape mk oip s s1 -> same_blobs s1 s2 -> dshape mk oip s s2.
+Proof.
+  intros [Hc Ha Hn Hl Ho] (E1 & E2 & E3 & E4 & E5). constructor; rewrite ?E1, ?E2, ?E3, ?E4, ?E5; assumption.
+Qed.
+
+Lemma same_blobs_refl s : same_blobs s s.
+Proof. repeat split. Qed.
+
+Lemma same_blobs_request_dump s : same_blobs s (request_dump s).
+Proof. unfold request_dump. destruct (s_alive s); repeat split. Qed.
+
+Lemma keeps_maybe_rotate k s : keeps k s (maybe_rotate K cfg s).
+Proof.
+  unfold maybe_rotate. destruct (s_active s) as [a|]; [|apply keeps_refl].
+  destruct (blob_full K cfg a && s_aged s && s_alive s); [|apply keeps_refl].
+  apply (keeps_trans _ _ _ _ (keeps_replace_active k s)), keeps_request_dump.
+Qed.
+
+Lemma keeps_close_active k s : keeps k s (fst (close_active s)).
+Proof.
+  unfold close_active. destruct (s_active s) as [a|] eqn:E; cbn [fst]; [|apply keeps_refl].
+  apply keeps_bio. rewrite !bio_eq, E.
+  cbn [push_closed upd_closed upd_active s_closed s_active oa]. rewrite cb_app, app_nil_r. reflexivity.
+Qed.
+
+Lemma keeps_create_active k s : keeps k s (fst (create_active s)).
+Proof.
+  unfold create_active. destruct (s_active s) as [a|] eqn:E; cbn [fst]; [apply keeps_refl|apply keeps_ensure_active].
+Qed.
+
+Lemma load_index_bsame k b : blob_ok K b -> bsame k b (blob_load_index K b).
+Proof.
+  intros Hb. split; [rewrite blob_load_index_recs; reflexivity|].
+  unfold isame. rewrite (load_index_idx b Hb). reflexivity.
+Qed.
+
+Lemma keeps_restore_active k s : BlobsOk K s -> keeps k s (fst (restore_active K s)).
+Proof.
+  intros HB. unfold restore_active. destruct (s_active s) as [a|] eqn:E; cbn [fst]; [apply keeps_refl|].
+  destruct (pop_last (s_closed s)) as [[b c]|] eqn:P; cbn [fst]; [|apply keeps_refl].
+  apply keeps_F2. rewrite !bio_eq, E. cbn [upd_closed upd_active s_closed s_active oa].
+  rewrite (pop_last_cb _ _ _ P), app_nil_r.
+  apply Forall2_app; [apply F2_bsame_refl|]. constructor; [|constructor].
+  apply load_index_bsame. apply (proj1 HB). exact (proj1 (pop_last_in _ _ _ P)).
+Qed.
+
+(* the completed write, slot by slot, before the rotation request *)
+Lemma do_write_shape s k ts meta msize dlen dseed :
+  let r := mk_rec k ts false meta msize dlen dseed in
+  exists s2, shape (stage_ok r) (ensure_active s) s2 /\
+             (abs s2 = abs (ensure_active s) \/ abs s2 = abs (ensure_active s) ++ [r]) /\
+             (fst (do_write K cfg s k ts meta msize dlen dseed) = maybe_rotate K cfg s2 \/
+              same_blobs s2 (fst (do_write K cfg s k ts meta msize dlen dseed))).
+Proof.
+  intros r. unfold do_write. set (s1 := ensure_active s).
+  destruct (negb (c_dup cfg) && is_found (get_latest_entry s1 k meta)); cbn [fst].
+  { exists s1. split; [apply shape_refl, stage_ok_refl|]. split; [left; reflexivity|right; apply same_blobs_refl]. }
+  destruct (s_active s1) as [a|] eqn:EA; cbn [fst].
+  2:{ exists s1. split; [apply shape_refl, stage_ok_refl|]. split; [left; reflexivity|right; apply same_blobs_refl]. }
+  fold r. pose proof (append_ok r a) as Hb.
+  assert (Hr : b_recs (fst (blob_append a r)) = b_recs a ++ [r]).
+  { unfold blob_append. destruct (b_ondisk a); reflexivity. }
+  destruct (blob_append a r) as [b' ok]. cbn [fst] in Hb, Hr.
+  exists (upd_active s1 (Some b')). split; [apply (shape_upd_active _ _ a b'); [apply stage_ok_refl|exact EA|exact Hb]|].
+  split.
+  - right. rewrite !abs_eq, EA. cbn [upd_active s_closed s_active]. rewrite Hr, app_assoc. reflexivity.
+  - destruct ok; cbn [fst]; [left; reflexivity|right; repeat split].
+Qed.
+
+Lemma keeps_do_write s k ts meta msize dlen dseed k' :
+  k <> k' -> keeps k' s (fst (do_write K cfg s k ts meta msize dlen dseed)).
+Proof.
+  intros Hk. destruct (do_write_shape s k ts meta msize dlen dseed) as (s2 & Hs & _ & Hd).
+  apply (keeps_trans _ _ _ _ (keeps_ensure_active k' s)).
+  assert (H2 : keeps k' (ensure_active s) s2).
+  { apply (shape_keeps (stage_ok (mk_rec k ts false meta msize dlen dseed))); [|exact Hs].
+    intros b b'. apply stage_ok_bsame. exact Hk. }
+  apply (keeps_trans _ _ _ _ H2). destruct Hd as [-> | (E1 & E2 & _)]; [apply keeps_maybe_rotate|].
+  apply keeps_ext; assumption.
+Qed.
+
+(* the completed delete, slot by slot: an instance of dp_closed, plus the dump request *)
+Lemma delete_in_closed_map l mk :
+  fst (fst (delete_in_closed K l mk)) = map (option_map (fun b => fst (fst (blob_delete K b mk true)))) l.
+Proof.
+  induction l as [|[x|] l IH]; cbn [delete_in_closed map option_map]; [reflexivity| |].
+  - destruct (delete_in_closed K l mk) as [[r' n1] f1]. cbn [fst] in IH. subst r'.
+    destruct (blob_delete K x mk true) as [[b' d] ok]. reflexivity.
+  - destruct (delete_in_closed K l mk) as [[r' n1] f1]. cbn [fst] in IH. subst r'. reflexivity.
+Qed.
+
+Lemma do_delete_same s k ts meta msize oip :
+  let mk := mk_rec k ts true meta msize 0 0 in
+  let s0 := delete_start s oip in
+  same_blobs (upd_closed (delete_active_done K s0 mk oip) (fst (fst (delete_in_closed K (s_closed s0) mk))))
+             (fst (do_delete K s k ts meta msize oip)).
+Proof.
+  intros mk s0. unfold do_delete. fold (delete_start s oip). fold mk. fold s0.
+  unfold delete_active_done. destruct (s_active s0) as [a|] eqn:EA.
+  - pose proof (blob_delete_spec K a mk oip) as HS.
+    destruct (blob_delete K a mk oip) as [[b' d] ok] eqn:B. destruct (HS _ _ _ eq_refl) as (-> & _ & _).
+    cbn [negb fst]. change (s_closed (upd_active s0 (Some b'))) with (s_closed s0).
+    destruct (delete_in_closed K (s_closed s0) mk) as [[c' nc] f]. cbn [fst].
+    destruct (0 <? nc); cbn [fst].
+    + unfold request_dump. cbn [s_alive upd_f2 upd_closed upd_active]. destruct (s_alive s0); repeat split.
+    + repeat split.
+  - cbn [negb].
+    destruct (delete_in_closed K (s_closed s0) mk) as [[c' nc] f]. cbn [fst].
+    destruct (0 <? nc); cbn [fst].
+    + unfold request_dump. cbn [s_alive upd_f2 upd_closed]. destruct (s_alive s0); repeat split.
+    + repeat split.
+Qed.
+
+Lemma do_delete_decomp s k ts meta msize oip :
+  let mk := mk_rec k ts true meta msize 0 0 in
+  exists c', Forall2 (slot_stage K mk) (s_closed (delete_start s oip)) c' /\
+             same_blobs (upd_closed (delete_active_done K (delete_start s oip) mk oip) c')
+                        (fst (do_delete K s k ts meta msize oip)).
+Proof.
+  intros mk. exists (fst (fst (delete_in_closed K (s_closed (delete_start s oip)) mk))).
+  split; [|apply do_delete_same].
+  pose proof (delete_in_closed_slots (s_closed (delete_start s oip)) mk) as HD.
+  destruct (delete_in_closed K (s_closed (delete_start s oip)) mk) as [[c' nc] f]. apply (HD _ _ _ eq_refl).
+Qed.
+
+(* the completed delete is Blob::delete applied to every slot *)
+Lemma do_delete_slots s k ts meta msize oip :
+  let mk := mk_rec k ts true meta msize 0 0 in
+  s_closed (fst (do_delete K s k ts meta msize oip)) =
+    map (option_map (fun b => fst (fst (blob_delete K b mk true)))) (s_closed (delete_start s oip)) /\
+  s_active (fst (do_delete K s k ts meta msize oip)) =
+    option_map (fun b => fst (fst (blob_delete K b mk oip))) (s_active (delete_start s oip)).
+Proof.
+  intros mk. destruct (do_delete_same s k ts meta msize oip) as (E1 & E2 & _). fold mk in E1, E2.
+  rewrite E1, E2. cbn [upd_closed s_closed s_active]. split; [apply delete_in_closed_map|].
+  unfold delete_active_done. destruct (s_active (delete_start s oip)) as [a|] eqn:EA; [reflexivity|].
+  rewrite EA. reflexivity.
+Qed.
+
+Lemma BlobsOk_delete_start s oip : BlobsOk K s -> BlobsOk K (delete_start s oip).
+Proof. intros H. unfold delete_start. destruct oip; [exact H|apply BlobsOk_ensure_active, H]. Qed.
+
+(* every state of the loop over the closed blobs, the active blob being done *)
+Lemma dshape_dp_closed s0 mk oip c' :
+  BlobsOk K s0 -> Forall2 (slot_stage K mk) (s_closed s0) c' ->
+  dshape mk oip s0 (upd_closed (delete_active_done K s0 mk oip) c').
+Proof.
+  intros [HBc HBa] HF. unfold delete_active_done.
+  destruct (s_active s0) as [a|] eqn:EA; constructor; cbn [upd_closed upd_active s_closed s_active s_next s_alive s_open]; auto.
+  - apply slots_stage_d; assumption.
+  - rewrite EA. constructor. apply blob_delete_d, HBa. reflexivity.
+  - apply slots_stage_d; assumption.
+  - rewrite EA. constructor.
+Qed.
+
+Lemma do_delete_dshape s k ts meta msize oip :
+  BlobsOk K s ->
+  dshape (mk_rec k ts true meta msize 0 0) oip (delete_start s oip) (fst (do_delete K s k ts meta msize oip)).
+Proof.
+  intros HB. destruct (do_delete_decomp s k ts meta msize oip) as (c' & HF & HS).
+  apply (dshape_same _ _ _ _ _ (dshape_dp_closed _ _ oip c' (BlobsOk_delete_start s oip HB) HF) HS).
+Qed.
+
+Lemma do_delete_shape s k ts meta msize oip :
+  BlobsOk K s ->
+  shape (stage_ok (mk_rec k ts true meta msize 0 0)) (delete_start s oip) (fst (do_delete K s k ts meta msize oip)).
+Proof. intros HB. apply (dshape_shape _ oip), do_delete_dshape, HB. Qed.
+
+Lemma keeps_delete_start k s oip : keeps k s (delete_start s oip).
+Proof. unfold delete_start. destruct oip; [apply keeps_refl|apply keeps_ensure_active]. Qed.
+
+Lemma keeps_do_delete s k ts meta msize oip k' :
+  BlobsOk K s -> k <> k' -> keeps k' s (fst (do_delete K s k ts meta msize oip)).
+Proof.
+  intros HB Hk. apply (keeps_trans _ _ _ _ (keeps_delete_start k' s oip)).
+  apply (shape_keeps (stage_ok (mk_rec k ts true meta msize 0 0))); [|apply do_delete_shape, HB].
+  intros b b'. apply stage_ok_bsame. exact Hk.
+Qed.
+
+Lemma keeps_step s o k :
+  public_op o = true -> s_open s = true -> BlobsOk K s -> op_key o <> Some k ->
+  keeps k s (fst (step K cfg s o)).
+Proof.
+  intros Hp Ho HB Hk. rewrite (step_open K cfg s o Ho).
+  destruct o; try discriminate Hp; cbn [fst]; try apply keeps_refl.
+  - apply keeps_do_write. intros ->. apply Hk. reflexivity.
+  - apply keeps_do_delete; [exact HB|]. intros ->. apply Hk. reflexivity.
+  - pose proof (keeps_close_active k s) as H1. destruct (close_active s) as [s' e]. cbn [fst] in *.
+    apply (keeps_trans _ _ _ _ H1), keeps_request_dump.
+  - pose proof (keeps_create_active k s) as H1. destruct (create_active s) as [s' e]. exact H1.
+  - pose proof (keeps_restore_active k s HB) as H1. destruct (restore_active K s) as [s' e]. exact H1.
+Qed.
+
+Lemma alive_step s o : public_op o = true -> s_open s = true -> s_alive (fst (step K cfg s o)) = s_alive s.
+Proof.
+  intros Hp Ho. rewrite (step_open K cfg s o Ho).
+  destruct o; try discriminate Hp; cbn [fst]; try reflexivity.
+  - apply alive_do_write.
+  - apply alive_do_delete.
+  - pose proof (alive_close_active s) as H1. destruct (close_active s) as [s' e]. cbn [fst] in *.
+    rewrite alive_request_dump. exact H1.
+  - pose proof (alive_create_active s) as H1. destruct (create_active s) as [s' e]. exact H1.
+  - pose proof (alive_restore_active K s) as H1. destruct (restore_active K s) as [s' e]. exact H1.
+Qed.
+
+Lemma open_step s o : public_op o = true -> s_open s = true -> s_open (fst (step K cfg s o)) = s_open s.
+Proof.
+  intros Hp Ho. rewrite (step_open K cfg s o Ho).
+  destruct o; try discriminate Hp; cbn [fst]; try reflexivity.
+  - apply open_do_write.
+  - apply open_do_delete.
+  - pose proof (open_close_active s) as H1. destruct (close_active s) as [s' e]. cbn [fst] in *.
+    rewrite open_request_dump. exact H1.
+  - pose proof (open_create_active s) as H1. destruct (create_active s) as [s' e]. exact H1.
+  - pose proof (open_restore_active K s) as H1. destruct (restore_active K s) as [s' e]. exact H1.
+Qed.
+
+Lemma safe_step s o :
+  public_op o = true -> s_open s = true -> BlobsOk K s ->
+  safe (fun k => op_key o <> Some k) s (fst (step K cfg s o)).
+Proof.
+  intros Hp Ho HB. split; [intros k Hk; apply keeps_step; assumption|].
+  split; [apply step_good; intros l ->; discriminate Hp|].
+  split; [apply step_ActiveInMemory|]. split; [apply alive_step; assumption|].
+  split; [apply step_IdsOk|apply open_step; assumption].
+Qed.
+
+(* ================= 7. the states left by a dropped future ================= *)
+
+(* nothing but the place of the index (disk -> memory) changes *)
+Definition quiet (b b' : blob) : Prop :=
+  b_id b' = b_id b /\ b_recs b' = b_recs b /\ b_idx b' = b_idx b /\ (b_ondisk b = false -> b_ondisk b' = false).
+
+Lemma quiet_refl b : quiet b b.
+Proof. repeat split; auto. Qed.
+
+Lemma quiet_stage r b b' : quiet b b' -> stage_ok r b b'.
+Proof. intros (H1 & H2 & H3 & H4). repeat split; auto. Qed.
+
+Lemma quiet_bsame k b b' : quiet b b' -> bsame k b b'.
+Proof. intros (_ & H2 & H3 & _). split; [rewrite H2; reflexivity|unfold isame; rewrite H3; reflexivity]. Qed.
+
+Lemma quiet_load b : blob_ok K b -> quiet b (blob_load_index K b).
+Proof.
+  intros Hb. split; [apply blob_load_index_id|]. split; [apply blob_load_index_recs|].
+  split; [apply load_index_idx, Hb|]. intros _. apply blob_load_index_mem.
+Qed.
+
+Definition r_dummy : rec := mk_rec 0 0 false None 0 0 0.
+
+Lemma safe_quiet s s' : shape quiet s s' -> safe (fun _ => True) s s'.
+Proof.
+  intros H.
+  destruct (safe_shape r_dummy s s' (shape_impl quiet (stage_ok r_dummy) s s' (quiet_stage r_dummy) H))
+    as (_ & B & C & D & E & F).
+  split; [|split; [exact B|]; split; [exact C|]; split; [exact D|]; split; [exact E|exact F]].
+  intros k _. apply (shape_keeps quiet); [apply quiet_bsame|exact H].
+Qed.
+
+Lemma safe_weaken (P Q : N -> Prop) s s' : (forall k, Q k -> P k) -> safe P s s' -> safe Q s s'.
+Proof. intros HI (A & B). split; [intros k Hk; apply A, HI, Hk|exact B]. Qed.
+
+Lemma via_safe r s s0 s' :
+  s_open s = true -> s0 = s \/ s0 = ensure_active s -> shape (stage_ok r) s0 s' ->
+  safe (fun k => r_key r <> k) s s'.
+Proof.
+  intros Ho [-> | ->] H; [apply safe_shape, H|].
+  apply (safe_trans _ _ (ensure_active s)); [apply safe_ensure_active, Ho|apply safe_shape, H].
+Qed.
+
+Lemma mlo_F2 (R : blob -> blob -> Prop) f l :
+  (forall b, R b b) -> (forall b, In (Some b) l -> R b (f b)) -> Forall2 (orel R) l (map_last_occupied f l).
+Proof.
+  intros Hr. induction l as [|x l IH]; intros Hf; cbn [map_last_occupied]; [constructor|].
+  destruct (pop_last l) as [p|].
+  - constructor; [apply orel_refl, Hr|]. apply IH. intros b Hb. apply Hf. right. exact Hb.
+  - destruct x as [b|]; (constructor; [|apply F2_orel_refl, Hr]); constructor.
+    apply Hf. left. reflexivity.
+Qed.
+
+(* ---------- write ---------- *)
+(* the index of no blob has changed *)
+Definition unidx (r : rec) (b b' : blob) : Prop := stage_ok r b b' /\ b_idx b' = b_idx b.
+
+Lemma unidx_refl r b : unidx r b b.
+Proof. split; [apply stage_ok_refl|reflexivity]. Qed.
+
+Lemma write_partial_via s k meta r s' :
+  write_partial cfg s k meta r s' ->
+  exists s0, (s0 = s \/ s0 = ensure_active s) /\ shape (unidx r) s0 s' /\
+             (abs s' = abs s0 \/ abs s' = abs s0 ++ [r]).
+Proof.
+  intros [Hn | | Hd].
+  - exists s. split; [left; reflexivity|]. split; [apply shape_burn_id, unidx_refl|left; reflexivity].
+  - exists (ensure_active s). split; [right; reflexivity|]. split; [apply shape_refl, unidx_refl|left; reflexivity].
+  - exists (ensure_active s). split; [right; reflexivity|].
+    destruct (ensure_active_some s) as [a Ea]. unfold cancel_write_midway. rewrite Ea. split.
+    + apply (shape_upd_active _ _ a); [apply unidx_refl|exact Ea|]. split; [apply unindexed_ok|reflexivity].
+    + right. rewrite !abs_eq, Ea. cbn [upd_active s_closed s_active append_unindexed b_recs].
+      rewrite app_assoc. reflexivity.
+Qed.
+
+(* ---------- delete ---------- *)
+Lemma delete_start_cases s oip :
+  delete_start s oip = s \/ (oip = false /\ delete_start s oip = ensure_active s).
+Proof. destruct oip; [left; reflexivity|right; split; reflexivity]. Qed.
+
+Lemma dshape_burn_id mk oip s : dshape mk oip s (burn_id s).
+Proof.
+  constructor; cbn [burn_id s_closed s_active s_next s_alive s_open]; auto.
+  - apply F2_orel_refl. intros b. apply dstage_refl.
+  - apply orel_refl. intros b. apply dstage_refl.
+Qed.
+
+(* a delete dropped midway: the id of a blob that was being created is consumed, or the state is, slot by slot,
+   the state in which the delete started its work (the active blob exists) at some stage of Blob::delete *)
+Lemma delete_partial_cases s mk oip s' :
+  BlobsOk K s -> delete_partial K s mk oip s' ->
+  s' = burn_id s \/ dshape mk oip (delete_start s oip) s'.
+Proof.
+  intros HB [Hoip Hn | | b b' Ea Happ Hst | c' HF]; [left; reflexivity|right..].
+  - apply dshape_refl.
+  - pose proof (BlobsOk_delete_start s oip HB) as [_ HBa].
+    constructor; cbn [upd_active s_closed s_active s_next s_alive s_open]; auto.
+    + apply F2_orel_refl. intros x. apply dstage_refl.
+    + rewrite Ea. constructor. apply delete_stage_d; [apply HBa, Ea|exact Happ|exact Hst].
+  - apply dshape_dp_closed; [apply BlobsOk_delete_start, HB|exact HF].
+Qed.
+
+Lemma delete_partial_via s mk oip s' :
+  BlobsOk K s -> delete_partial K s mk oip s' ->
+  exists s0, (s0 = s \/ (oip = false /\ s0 = ensure_active s)) /\ dshape mk oip s0 s'.
+Proof.
+  intros HB H. destruct (delete_partial_cases s mk oip s' HB H) as [-> | Hd].
+  - exists s. split; [left; reflexivity|apply dshape_burn_id].
+  - exists (delete_start s oip). split; [apply delete_start_cases|exact Hd].
+Qed.
+
+(* ---------- restore_active, create_active ---------- *)
+Lemma restore_partial_quiet s s' : BlobsOk K s -> restore_partial K s s' -> shape quiet s s'.
+Proof.
+  intros [HBc _] [Hn]. constructor; cbn [upd_closed s_closed s_active s_next s_alive s_open]; auto.
+  - apply mlo_F2; [apply quiet_refl|]. intros b Hb. apply quiet_load, HBc, Hb.
+  - apply orel_refl, quiet_refl.
+Qed.
+
+Lemma create_partial_quiet s s' : create_partial s s' -> shape quiet s s'.
+Proof. intros [Hn]. apply shape_burn_id, quiet_refl. Qed.
+
+(* ================= 8. (A) (B) (C): the theorems ================= *)
+
+Theorem cancel_safe s o s' :
+  BlobsOk K s -> s_open s = true -> cancel_outcomes K cfg s o s' ->
+  safe (fun k => op_key o <> Some k) s s'.
+Proof.
+  intros HB Ho [Hp [-> | [-> | [_ Hpar]]]].
+  - apply safe_refl.
+  - apply safe_step; assumption.
+  - destruct o; cbn [partial_outcomes] in Hpar; try contradiction.
+    + destruct (write_partial_via _ _ _ _ _ Hpar) as (s0 & H0 & Hs & _).
+      apply (safe_weaken (fun k' => r_key (mk_rec k ts false meta msize dlen dseed) <> k')).
+      { intros k' Hk' E. apply Hk'. cbn [op_key]. f_equal. exact E. }
+      apply (via_safe _ s s0); [exact Ho|exact H0|].
+      apply (shape_impl (unidx (mk_rec k ts false meta msize dlen dseed))) with (2 := Hs). intros b b' H. apply H.
+    + destruct (delete_partial_via _ _ _ _ HB Hpar) as (s0 & H0 & Hs).
+      apply (safe_weaken (fun k' => r_key (mk_rec k ts true meta msize 0 0) <> k')).
+      { intros k' Hk' E. apply Hk'. cbn [op_key]. f_equal. exact E. }
+      apply (via_safe _ s s0); [exact Ho| |apply (dshape_shape _ oip), Hs].
+      destruct H0 as [H0|[_ H0]]; [left|right]; exact H0.
+    + apply (safe_weaken (fun _ => True)); [auto|]. apply safe_quiet, create_partial_quiet, Hpar.
+    + apply (safe_weaken (fun _ => True)); [auto|]. apply safe_quiet, restore_partial_quiet; assumption.
+Qed.
+
+(* (A) no other key is affected *)
+Theorem cancel_other_keys s o s' k :
+  BlobsOk K s -> s_open s = true -> cancel_outcomes K cfg s o s' -> op_key o <> Some k ->
+  of_key k (abs s') = of_key k (abs s) /\
+  forall meta, get_latest_entry s' k meta = get_latest_entry s k meta.
+Proof. intros HB Ho Hc Hk. apply (proj1 (cancel_safe s o s' HB Ho Hc) k Hk). Qed.
+
+(* (B) nothing stored is harmed *)
+Theorem cancel_no_harm s o s' :
+  BlobsOk K s -> s_open s = true -> cancel_outcomes K cfg s o s' -> good s s'.
+Proof. intros HB Ho Hc. apply (cancel_safe s o s' HB Ho Hc). Qed.
+
+(* (C) later operations work *)
+Theorem cancel_later_ops s o s' :
+  BlobsOk K s -> s_open s = true -> cancel_outcomes K cfg s o s' ->
+  (ActiveInMemory s -> ActiveInMemory s') /\ s_alive s' = s_alive s /\ (IdsOk s -> IdsOk s') /\ s_open s' = true.
+Proof.
+  intros HB Ho Hc. destruct (cancel_safe s o s' HB Ho Hc) as (_ & _ & C & D & E & F).
+  split; [exact C|]. split; [exact D|]. split; [exact E|congruence].
+Qed.
+
+(* hence: after a cancellation no operation is answered with the index error, and every write is acknowledged *)
+Theorem cancel_then_no_index_error s o s' o2 :
+  BlobsOk K s -> ActiveInMemory s -> s_open s = true -> cancel_outcomes K cfg s o s' ->
+  snd (step K cfg s' o2) <> RErr EIndex.
+Proof.
+  intros HB HA Ho Hc. apply step_no_index_error. apply (cancel_later_ops s o s' HB Ho Hc), HA.
+Qed.
+
+Theorem cancel_then_write_acknowledged s o s' k ts meta msize dlen dseed :
+  BlobsOk K s -> ActiveInMemory s -> s_open s = true -> cancel_outcomes K cfg s o s' ->
+  snd (step K cfg s' (OWrite k ts meta msize dlen dseed)) = RUnit.
+Proof.
+  intros HB HA Ho Hc. destruct (cancel_later_ops s o s' HB Ho Hc) as (C & _ & _ & F).
+  rewrite (step_open K cfg s' _ F). apply do_write_ack, C, HA.
+Qed.
+
+(* ================= 9. (D) a cancelled write: not at all in the session, entirely once the index is regenerated ================= *)
+
+Lemma abs_maybe_rotate s : abs (maybe_rotate K cfg s) = abs s.
+Proof.
+  unfold maybe_rotate. destruct (s_active s) as [a|]; [|reflexivity].
+  destruct (blob_full K cfg a && s_aged s && s_alive s); [|reflexivity].
+  rewrite abs_request_dump. apply abs_replace_active.
+Qed.
+
+(* the log is the old log, or the old log with the record at its end (= at the end of the active blob) *)
+Theorem cancelled_write_log s k ts meta msize dlen dseed s' :
+  s_open s = true -> cancel_outcomes K cfg s (OWrite k ts meta msize dlen dseed) s' ->
+  abs s' = abs s \/ abs s' = abs s ++ [mk_rec k ts false meta msize dlen dseed].
+Proof.
+  intros Ho [_ [-> | [-> | [_ Hpar]]]].
+  - left. reflexivity.
+  - rewrite (step_open K cfg s _ Ho). cbn [fst].
+    destruct (do_write_shape s k ts meta msize dlen dseed) as (s2 & _ & Habs & Hd).
+    rewrite abs_ensure_active in Habs.
+    assert (E : abs (fst (do_write K cfg s k ts meta msize dlen dseed)) = abs s2).
+    { destruct Hd as [-> | (E1 & E2 & _)]; [apply abs_maybe_rotate|apply abs_ext; assumption]. }
+    rewrite E. exact Habs.
+  - cbn [partial_outcomes] in Hpar. destruct (write_partial_via _ _ _ _ _ Hpar) as (s0 & H0 & _ & Habs).
+    destruct H0 as [-> | ->]; [exact Habs|]. rewrite abs_ensure_active in Habs. exact Habs.
+Qed.
+
+(* in the session a write that did not complete is not there at all: EVERY read (of its key too) answers as before *)
+Theorem cancelled_write_session s k ts meta msize dlen dseed s' :
+  partial_outcomes K cfg s (OWrite k ts meta msize dlen dseed) s' ->
+  forall k' meta', get_latest_entry s' k' meta' = get_latest_entry s k' meta'.
+Proof.
+  intros Hpar k'. cbn [partial_outcomes] in Hpar.
+  destruct (write_partial_via _ _ _ _ _ Hpar) as (s0 & H0 & Hs & _).
+  apply (rsame_trans k' s s0 s').
+  - destruct H0 as [-> | ->]; [apply rsame_refl|apply keeps_ensure_active].
+  - apply rsame_F2. apply (F2_impl (unidx (mk_rec k ts false meta msize dlen dseed)) (isame k')) with (2 := shape_bio _ _ _ Hs).
+    intros b b' [_ E]. unfold isame. rewrite E. reflexivity.
+Qed.
+
+Corollary cancelled_write_before_or_after s k ts meta msize dlen dseed s' :
+  cancel_outcomes K cfg s (OWrite k ts meta msize dlen dseed) s' ->
+  forall k' meta', get_latest_entry s' k' meta' = get_latest_entry s k' meta' \/
+                   get_latest_entry s' k' meta' = get_latest_entry (fst (step K cfg s (OWrite k ts meta msize dlen dseed))) k' meta'.
+Proof.
+  intros [_ [-> | [-> | [_ Hpar]]]] k' meta'; [left; reflexivity|right; reflexivity|left].
+  apply (cancelled_write_session _ _ _ _ _ _ _ _ Hpar).
+Qed.
+
+(* on disk the cancelled write and the completed write are the same files: a start that reads the blob as the
+   session left it (no index dump in between) sees the write entirely *)
+Lemma unindexed_same_files b r :
+  blob_from_file K (append_unindexed b r) = blob_from_file K (fst (blob_append b r)).
+Proof. unfold blob_append. destruct (b_ondisk b); reflexivity. Qed.
+
+Lemma size_of_firstn_le n l : size_of K (firstn n l) <= size_of K l.
+Proof.
+  rewrite <- (firstn_skipn n l) at 2. unfold size_of. rewrite fold_left_app. apply fold_size_ge.
+Qed.
+
+(* ... and its index is then regenerated from the records, the new one included: the index file of the blob, if
+   there is one, describes a strict prefix of the file and is rejected *)
+Lemma unindexed_regenerated b r :
+  blob_ok K b ->
+  b_recs (blob_from_file K (append_unindexed b r)) = b_recs b ++ [r] /\
+  b_idx (blob_from_file K (append_unindexed b r)) = index_of (b_recs b ++ [r]) /\
+  b_idx (blob_from_file K (append_unindexed b r)) = imap_push (b_idx b) r.
+Proof.
+  intros [Hi Hf].
+  assert (H12 : b_recs (blob_from_file K (append_unindexed b r)) = b_recs b ++ [r] /\
+                b_idx (blob_from_file K (append_unindexed b r)) = index_of (b_recs b ++ [r])).
+  { split; [apply blob_from_file_recs|].
+    unfold blob_from_file. cbn [append_unindexed b_idxfile b_recs b_id].
+    unfold idxfile_ok in Hf. destruct (b_idxfile b) as [[sz m]|]; [|reflexivity].
+    destruct Hf as (n & Hn & Hs & Hm).
+    destruct (N.eqb_spec sz (blob_size K (append_unindexed b r))) as [E|_]; [|reflexivity].
+    exfalso. rewrite blob_size_size_of in E. cbn [append_unindexed b_recs] in E.
+    unfold size_of in E at 1. rewrite fold_left_app in E. cbn [fold_left] in E.
+    fold (size_of K (b_recs b)) in E. pose proof (size_of_firstn_le n (b_recs b)). pose proof (rec_size_pos K r). lia. }
+  destruct H12 as [H1 H2]. split; [exact H1|]. split; [exact H2|].
+  rewrite H2, index_of_snoc, <- Hi. reflexivity.
+Qed.
+
+(* finding F18, in general: when the blob is dumped first (Storage::close), the dumped index lacks the record but
+   records the size of the file that contains it; the next start trusts it *)
+Lemma unindexed_then_dump_hides b r :
+  b_ondisk b = false -> b_idx b <> [] ->
+  b_recs (blob_from_file K (blob_dump K (append_unindexed b r))) = b_recs b ++ [r] /\
+  b_idx (blob_from_file K (blob_dump K (append_unindexed b r))) = b_idx b.
+Proof.
+  intros Hm Hne. split; [rewrite blob_from_file_recs, blob_dump_recs; reflexivity|].
+  unfold blob_dump. cbn [append_unindexed b_ondisk b_idx]. rewrite Hm.
+  destruct (b_idx b) as [|p t] eqn:E; [contradiction|].
+  unfold blob_from_file. cbn [b_idxfile b_recs b_id b_idx].
+  rewrite N.eqb_refl. reflexivity.
+Qed.
+
+(* ================= 10. (E) a cancelled delete: the log ================= *)
+
+Lemma delete_outcome_dshape s k ts meta msize oip s' :
+  BlobsOk K s -> s_open s = true -> cancel_outcomes K cfg s (ODelete k ts meta msize oip) s' ->
+  exists s0, (s0 = s \/ (oip = false /\ s0 = ensure_active s)) /\
+             dshape (mk_rec k ts true meta msize 0 0) oip s0 s'.
+Proof.
+  intros HB Ho [_ [-> | [-> | [_ Hpar]]]].
+  - exists s. split; [left; reflexivity|apply dshape_refl].
+  - exists (delete_start s oip). split; [apply delete_start_cases|].
+    rewrite (step_open K cfg s _ Ho). apply do_delete_dshape, HB.
+  - apply delete_partial_via; assumption.
+Qed.
+
+(* the blob keeps its id; its records are the old ones, or -- only where Blob::delete applies -- the old ones and
+   the marker *)
+Definition marker_ext (mk : rec) (oip : bool) (b b' : blob) : Prop :=
+  b_id b' = b_id b /\
+  (b_recs b' = b_recs b \/ (delete_applies b mk oip = true /\ b_recs b' = b_recs b ++ [mk])).
+
+Lemma dstage_marker mk oip b b' : dstage mk oip b b' -> marker_ext mk oip b b'.
+Proof.
+  intros [(Hi & Hr & _) Ha]. split; [exact Hi|].
+  destruct Hr as [Hr|Hr]; [left; exact Hr|]. destruct Ha as [Ha|[Hr' _]]; [right; split; assumption|left; exact Hr'].
+Qed.
+
+(* every outcome: the old blobs (after the creation of the active blob, if the delete got that far), each one
+   with or without ONE marker at its end -- any subset of the blobs the completed delete marks *)
+Theorem cancelled_delete_log s k ts meta msize oip s' :
+  BlobsOk K s -> s_open s = true -> cancel_outcomes K cfg s (ODelete k ts meta msize oip) s' ->
+  exists s0, (s0 = s \/ (oip = false /\ s0 = ensure_active s)) /\
+    Forall2 (orel (marker_ext (mk_rec k ts true meta msize 0 0) true)) (s_closed s0) (s_closed s') /\
+    orel (marker_ext (mk_rec k ts true meta msize 0 0) oip) (s_active s0) (s_active s').
+Proof.
+  intros HB Ho Hc. destruct (delete_outcome_dshape s k ts meta msize oip s' HB Ho Hc) as (s0 & H0 & [Hcl Ha _ _ _]).
+  exists s0. split; [exact H0|]. split.
+  - apply (F2_impl (orel (dstage (mk_rec k ts true meta msize 0 0) true))
+                   (orel (marker_ext (mk_rec k ts true meta msize 0 0) true))) with (2 := Hcl).
+    intros o o' [|b b' Hb]; constructor. apply dstage_marker, Hb.
+  - destruct Ha as [|b b' Hb]; constructor. apply dstage_marker, Hb.
+Qed.
+
+(* ================= 11. (E) a cancelled delete: the read of the key ================= *)
+
+Lemma done_idx b mk : blob_ok K b -> b_idx (fst (blob_append (blob_load_index K b) mk)) = imap_push (b_idx b) mk.
+Proof.
+  intros Hb. unfold blob_append. rewrite blob_load_index_mem. cbn [fst b_idx]. rewrite (load_index_idx b Hb). reflexivity.
+Qed.
+
+Section DeleteRead.
+Variable mk : rec.
+Hypothesis Hdel : r_del mk = true.
+Variable meta : option N.
+
+Let g (b : blob) : rr rec := blob_get_latest (b_idx b) (r_key mk) meta.
+Let D : rr rec := Deleted (r_ts mk).
+
+Lemma tri_blob o b b' :
+  blob_ok K b -> dstage mk o b b' -> tri D (g b) (g b') (g (fst (fst (blob_delete K b mk o)))).
+Proof.
+  intros Hb [(_ & _ & Hx & _) Ha]. rewrite blob_delete_stage. unfold g.
+  destruct (delete_applies b mk o) eqn:A.
+  - rewrite (done_idx b mk Hb), (bgl_push b mk meta (proj1 Hb) Hdel).
+    destruct Hx as [E|E]; rewrite E; [apply tri_later|].
+    rewrite (bgl_push b mk meta (proj1 Hb) Hdel). apply tri_done.
+  - destruct Ha as [Ha|[_ E]]; [discriminate Ha|]. rewrite E. apply tri_none.
+Qed.
+
+Lemma Tri_slots o l l' :
+  (forall b, In (Some b) l -> blob_ok K b) -> Forall2 (orel (dstage mk o)) l l' ->
+  Tri D (map g (cb l)) (map g (cb l'))
+        (map g (cb (map (option_map (fun b => fst (fst (blob_delete K b mk o)))) l))).
+Proof.
+  intros Hb HF. induction HF as [|x x' l l' Hx HF IH]; [constructor|].
+  assert (IH' := IH (fun b Hin => Hb b (or_intror Hin))). clear IH.
+  revert Hb. destruct Hx as [|b b' Hbb]; intros Hb; cbn [map option_map].
+  - rewrite !cb_cons_none. exact IH'.
+  - rewrite !cb_cons_some. cbn [map]. constructor; [|exact IH'].
+    apply tri_blob; [apply Hb; left; reflexivity|exact Hbb].
+Qed.
+
+Lemma Tri_active o a a' :
+  (forall b, a = Some b -> blob_ok K b) -> orel (dstage mk o) a a' ->
+  Tri D (map g (oa a)) (map g (oa a')) (map g (oa (option_map (fun b => fst (fst (blob_delete K b mk o))) a))).
+Proof.
+  intros Hb H. revert Hb. destruct H as [|b b' Hbb]; intros Hb; cbn [oa option_map map]; [constructor|].
+  constructor; [|constructor]. apply tri_blob; [apply Hb; reflexivity|exact Hbb].
+Qed.
+
+Lemma gle_merged s : get_latest_entry s (r_key mk) meta = merged (map g (blobs_in_order s)).
+Proof. apply gle_as_fold. Qed.
+
+(* s0: the state in which the delete starts its work; s': dropped; sc: completed *)
+Lemma dshape_read oip s0 s' sc :
+  BlobsOk K s0 -> dshape mk oip s0 s' ->
+  s_closed sc = map (option_map (fun b => fst (fst (blob_delete K b mk true)))) (s_closed s0) ->
+  s_active sc = option_map (fun b => fst (fst (blob_delete K b mk oip))) (s_active s0) ->
+  get_latest_entry s' (r_key mk) meta = get_latest_entry s0 (r_key mk) meta \/
+  get_latest_entry s' (r_key mk) meta = get_latest_entry sc (r_key mk) meta.
+Proof.
+  intros [HBc HBa] Hd Ec Ea. rewrite !gle_merged, !bio_eq, Ec, Ea, !map_app.
+  apply (Tri_merged D). apply Tri_app.
+  - apply Tri_slots; [exact HBc|apply (dsh_closed _ _ _ _ Hd)].
+  - apply Tri_active; [exact HBa|apply (dsh_active _ _ _ _ Hd)].
+Qed.
+
+End DeleteRead.
+
+(* In the session every read of the key answers as before the delete, or as after the completed delete -- whatever
+   subset of the blobs has been processed, and how far *)
+Theorem cancelled_delete_read s k ts meta msize oip s' :
+  BlobsOk K s -> s_open s = true -> cancel_outcomes K cfg s (ODelete k ts meta msize oip) s' ->
+  forall meta',
+    get_latest_entry s' k meta' = get_latest_entry s k meta' \/
+    get_latest_entry s' k meta' = get_latest_entry (fst (step K cfg s (ODelete k ts meta msize oip))) k meta'.
+Proof.
+  intros HB Ho [_ [-> | [-> | [_ Hpar]]]] meta'; [left; reflexivity|right; reflexivity|].
+  cbn [partial_outcomes] in Hpar.
+  destruct (delete_partial_cases s _ oip s' HB Hpar) as [-> | Hd]; [left; reflexivity|].
+  rewrite (step_open K cfg s _ Ho). cbn [fst].
+  destruct (do_delete_slots s k ts meta msize oip) as [Ec Ea].
+  pose proof (dshape_read (mk_rec k ts true meta msize 0 0) eq_refl meta' oip (delete_start s oip) s'
+                (fst (do_delete K s k ts meta msize oip)) (BlobsOk_delete_start s oip HB) Hd Ec Ea) as H.
+  cbn [mk_rec r_key] in H.
+  rewrite (proj2 (keeps_delete_start k s oip) meta') in H. exact H.
+Qed.
+
+(* ================= 12. retrying ================= *)
+
+Lemma pop_last_mlo f l :
+  pop_last (map_last_occupied f l) = match pop_last l with Some (b, c) => Some (f b, c) | None => None end.
+Proof.
+  induction l as [|x l IH]; [reflexivity|]. cbn [map_last_occupied pop_last].
+  destruct (pop_last l) as [[b c]|] eqn:P.
+  - cbn [pop_last]. rewrite IH. reflexivity.
+  - destruct x as [b|]; cbn [pop_last]; rewrite P; reflexivity.
+Qed.
+
+Lemma load_index_idem b : blob_load_index K (blob_load_index K b) = blob_load_index K b.
+Proof.
+  pose proof (blob_load_index_mem K b) as Hm. set (b1 := blob_load_index K b) in *.
+  unfold blob_load_index. rewrite Hm. reflexivity.
+Qed.
+
+Lemma mlo_none f l : pop_last l = None -> map_last_occupied f l = l.
+Proof.
+  induction l as [|x l IH]; [reflexivity|]. cbn [map_last_occupied pop_last].
+  destruct (pop_last l) as [[b c]|]; [discriminate|]. destruct x; [discriminate|reflexivity].
+Qed.
+
+(* a restore_active dropped after the index was loaded: calling it again gives the state the first call would have given *)
+Lemma restore_retry_completes s s' :
+  restore_partial K s s' -> fst (restore_active K s') = fst (restore_active K s).
+Proof.
+  intros [Hn]. unfold restore_active. cbn [upd_closed s_active s_closed]. rewrite Hn, pop_last_mlo.
+  destruct (pop_last (s_closed s)) as [[b c]|] eqn:P; cbn [fst].
+  - rewrite load_index_idem. reflexivity.
+  - rewrite (mlo_none _ _ P). destruct s; reflexivity.
+Qed.
+
+(* ================= 13. the statements for states that satisfy the invariants, and for reachable states ================= *)
+
+Theorem cancel_safety s o s' :
+  Inv K s -> ActiveInMemory s -> s_open s = true -> cancel_outcomes K cfg s o s' ->
+  (forall k, op_key o <> Some k ->
+     of_key k (abs s') = of_key k (abs s) /\ forall meta, get_latest_entry s' k meta = get_latest_entry s k meta) /\
+  good s s' /\
+  ActiveInMemory s' /\ s_alive s' = s_alive s /\ IdsOk s' /\ s_open s' = true.
+Proof.
+  intros (HB & HI & _) HA Ho Hc. destruct (cancel_safe s o s' HB Ho Hc) as (A & B & C & D & E & F).
+  split; [exact A|]. split; [exact B|]. split; [apply C, HA|]. split; [exact D|]. split; [apply E, HI|congruence].
+Qed.
+
+(* (B) spelled out *)
+Theorem cancel_append_only s o s' b :
+  BlobsOk K s -> s_open s = true -> cancel_outcomes K cfg s o s' -> In b (blobs_in_order s) ->
+  exists b', In b' (blobs_in_order s') /\ b_id b' = b_id b /\ prefix_of (b_recs b) (b_recs b').
+Proof.
+  intros HB Ho Hc Hb. destruct (cancel_no_harm s o s' HB Ho Hc) as (HL & _ & _).
+  destruct (HL b Hb) as (b' & Hin & Hid & Hp). exists b'. split; [exact Hin|]. split; assumption.
+Qed.
+
+Theorem reach_cancel_safety ops o s' :
+  s_open (reach K cfg ops) = true -> cancel_outcomes K cfg (reach K cfg ops) o s' ->
+  (forall k, op_key o <> Some k ->
+     of_key k (abs s') = of_key k (abs (reach K cfg ops)) /\
+     forall meta, get_latest_entry s' k meta = get_latest_entry (reach K cfg ops) k meta) /\
+  good (reach K cfg ops) s' /\
+  ActiveInMemory s' /\ s_alive s' = s_alive (reach K cfg ops) /\ IdsOk s' /\ s_open s' = true.
+Proof. intros Ho Hc. apply (cancel_safety _ o s'); [apply reach_Inv|apply reach_ActiveInMemory|exact Ho|exact Hc]. Qed.
+End K.
+
+(* ================= 14. computed examples ================= *)
 
 Definition c_cfg : config := {| c_dup := true; c_maxrec := 1000; c_maxsize := 1000000 |}.
 Definition c_rec : rec := mk_rec 2 7 false None 8 5 9001.
 Definition c_state : storage := cancel_write_midway (reach 4 c_cfg [OOpen false; OWrite 1 7 None 8 5 1]) c_rec.
+
+(* c_state is an outcome of the cancelled write in the sense of cancel_outcomes *)
+Lemma c_state_is_outcome :
+  cancel_outcomes 4 c_cfg (reach 4 c_cfg [OOpen false; OWrite 1 7 None 8 5 1]) (OWrite 2 7 None 8 5 9001) c_state.
+Proof.
+  split; [reflexivity|]. right. right. split; [reflexivity|].
+  exact (wp_bytes c_cfg (reach 4 c_cfg [OOpen false; OWrite 1 7 None 8 5 1]) 2 None c_rec eq_refl).
+Qed.
 
 (* in the session the cancelled write is invisible ("not at all") *)
 Lemma cancelled_write_invisible_in_session : get_latest_entry c_state 2 None = NotFound.
@@ -31,4 +1335,37 @@ Proof.
   rewrite !flat_map_app. unfold of_key. rewrite !filter_app. f_equal.
   cbn [flat_map append_unindexed b_recs]. rewrite !app_nil_r, filter_app. cbn [filter].
   destruct (N.eqb_spec (r_key r) k) as [|_]; [contradiction|]. rewrite app_nil_r. reflexivity.
+Qed.
+
+(* a delete dropped while the closed blobs are processed: two closed blobs hold key 1 (timestamps 7 and 8), the
+   delete (timestamp 8) has fully processed the OLDER blob only. The marker is in the log, and the read of the
+   key is the read BEFORE the delete (the newer blob answers Found 8, an equal timestamp does not replace it);
+   the completed delete answers Deleted 8. *)
+Definition d_state : storage :=
+  reach 4 c_cfg [OOpen false; OWrite 1 7 None 8 5 1; OCloseActive; OCreateActive; OWrite 1 8 None 8 5 2; OCloseActive].
+Definition d_op : op := ODelete 1 8 None 8 true.
+Definition d_mk : rec := mk_rec 1 8 true None 8 0 0.
+Definition d_out : storage :=
+  upd_closed (delete_active_done 4 (delete_start d_state true) d_mk true)
+             (match s_closed d_state with
+              | Some b0 :: rest => Some (fst (blob_append (blob_load_index 4 b0) d_mk)) :: rest
+              | l => l
+              end).
+
+Lemma d_out_is_outcome : cancel_outcomes 4 c_cfg d_state d_op d_out.
+Proof.
+  split; [reflexivity|]. right. right. split; [reflexivity|].
+  apply (dp_closed 4 d_state d_mk true). vm_compute.
+  constructor; [apply ss_stage; [reflexivity|apply (ds_done 4)]|].
+  constructor; [apply ss_stage; [reflexivity|apply (ds_untouched 4)]|constructor].
+Qed.
+
+Lemma d_out_read :
+  In d_mk (abs d_out) /\ ~ In d_mk (abs d_state) /\
+  get_latest_entry d_out 1 None = get_latest_entry d_state 1 None /\
+  get_latest_entry d_state 1 None = Found (mk_rec 1 8 false None 8 5 2) /\
+  get_latest_entry (fst (step 4 c_cfg d_state d_op)) 1 None = Deleted 8.
+Proof.
+  split; [vm_compute; auto|]. split; [vm_compute; intros [H|[H|[]]]; discriminate H|].
+  vm_compute. repeat split.
 Qed.
